@@ -1696,7 +1696,7 @@ fn c20_nontrivial(_c: &Case, o: &Outcome) -> bool {
 pub static C20: PropDef = PropDef {
     id: "C20",
     rule: "maps / sets of tracked elements x entry streams with repeated keys x claimed size hints {none, len, 1, 4095, \
-           4096, 4097, 2^32, usize::MAX/2, usize::MAX} x an element deserialisation error at position e (keys and values \
+           4096, 4097, 5000, 8192, 50 000, 100 000, 2^20, 2^32, 2^63, 2^63+1, usize::MAX/2, usize::MAX-1, usize::MAX} x an element deserialisation error at position e (keys and values \
            both count) x mode {serialize -> serde_json -> deserialize, serde value deserializers over a lying iterator, \
            deserialize_in_place into a pre-filled set}; oracle: round trip ==, last value wins, Err is returned, every \
            built element dropped exactly once and no block left, bytes reserved before the first element is read <= block \
